@@ -89,4 +89,16 @@ def copyStep (absentIsOlder : Bool) (st : CopyState) (s : Src) : CopyState :=
 def mibcopy (absentIsOlder : Bool) (dst : List (String × Rev × Nat)) (srcs : List Src) : CopyState :=
   srcs.foldl (copyStep absentIsOlder) { dst := dst, cache := [] }
 
+/-- the same step under `--dry-run`: the copy is left out, everything the script records and reports is as in a real run
+(`mibsRevisions[mibName] = srcMibRevision` stands before the guarded `shutil.copy`) -/
+def copyStepDry (absentIsOlder : Bool) (st : CopyState) (s : Src) : CopyState :=
+  if skipTest absentIsOlder (dstRevOf st s.name) (revValue s.rev) then
+    { st with cache := cacheLooked st s.name (dstRevOf st s.name) }
+  else
+    { dst := st.dst,
+      cache := setCache (cacheLooked st s.name (dstRevOf st s.name)) s.name (some (revValue s.rev)) }
+
+def mibcopyDry (absentIsOlder : Bool) (dst : List (String × Rev × Nat)) (srcs : List Src) : CopyState :=
+  srcs.foldl (copyStepDry absentIsOlder) { dst := dst, cache := [] }
+
 end Pysmi.Cli
